@@ -45,6 +45,17 @@ Definition all_or_nothing (st : N) (ct : bytes) (eh : option resp) (doc : bytes)
   if failed then match eh with Some e => r = e | None => default_error r end
   else complete_doc st ct doc r.
 
+(* The same as an HTTP client sees it.  The response to a HEAD request carries the status line and the
+   header section only (RFC 9110 9.3.2: the server must not send content): all-or-nothing then demands
+   that what arrives is the all-or-nothing response without its body - in particular the status and the
+   content type a HEAD announces are those a GET of the same resource would get.  [head]: the request
+   method was HEAD and the response was observed by a client (not at the ResponseWriter); [eh] is then
+   the error handler's own response observed the same way. *)
+Definition no_body (r : resp) : resp := {| r_status := r_status r; r_hdr := r_hdr r; r_body := [] |}.
+Definition all_or_nothing_wire (head : bool) (st : N) (ct : bytes) (eh : option resp) (doc : bytes) (failed : bool) (r : resp) : Prop :=
+  if head then exists r0, all_or_nothing st ct eh doc failed r0 /\ r = no_body r0
+  else all_or_nothing st ct eh doc failed r.
+
 (* ---- decidable versions, extracted and evaluated on the implementation's real responses ---- *)
 Definition obytes_eqb (a b : option bytes) : bool :=
   match a, b with Some x, Some y => bytes_eqb x y | None, None => true | _, _ => false end.
@@ -65,3 +76,15 @@ Definition default_error_b (r : resp) : bool :=
 Definition all_or_nothing_b (st : N) (ct : bytes) (eh : option resp) (doc : bytes) (failed : bool) (r : resp) : bool :=
   if failed then match eh with Some e => resp_eqb r e | None => default_error_b r end
   else complete_doc_b st ct doc r.
+
+Definition all_or_nothing_wire_b (head : bool) (st : N) (ct : bytes) (eh : option resp) (doc : bytes) (failed : bool) (r : resp) : bool :=
+  if head then
+    bytes_eqb (r_body r) [] &&
+    (if failed then
+       match eh with
+       | Some e => resp_eqb r (no_body e)
+       | None => (r_status r =? 500) &&
+                 obytes_eqb (hget h_ctype (r_hdr r)) (Some text_plain) && obytes_eqb (hget h_nosniff (r_hdr r)) (Some nosniff)
+       end
+     else (r_status r =? (if st =? 0 then 200 else st)) && obytes_eqb (hget h_ctype (r_hdr r)) (Some ct))
+  else all_or_nothing_b st ct eh doc failed r.
